@@ -848,7 +848,7 @@ CLAIM19 = dict(
     text="AspTokens.tla defines a token alphabet of the BUILD language by category (names, ints, plain/f/raw/triple strings, "
          "unterminated strings and broken f-string braces, brackets, operators, punctuation, newline/indent layout, keywords, "
          "comment, backslash, odd bytes NUL/0xff/tab/CR/$!@~?); TLC enumerates every sequence of <=2 tokens over the 88-token alphabet "
-         "and <=3 over a 28-token core (quick; <=3 / <=4 plus tlc -simulate to 7 in thorough); each sequence is rendered under 12 "
+         "and <=3 over a 28-token core (quick; thorough: <=4 over the core plus tlc -simulate to 7 tokens over the full alphabet); each sequence is rendered under 12 "
          "variants (no/one space between tokens x bare, `x = T`, `f(T)`, `def f(T):`, `[T]`, function body) and given to the real "
          "Parser.ParseData in a subprocess; the verdict is the property: a program or an error carrying a position, never an "
          "internal runtime error, an escaped panic, a crash or a hang.",
@@ -875,8 +875,8 @@ def run19(ctx):
             r = vlib.tlc(ctx, "AspTokens", "GEN_AspTokens_thorough.cfg", workers=8, timeout=3000,
                          java_opts=["-Xmx12g"])
             cases = r.cases
-            # tlc -simulate prints every successor of every visited state: 88 cases per step
-            cases += vlib.tlc(ctx, "AspTokens", "SIM_AspTokens.cfg", workers=1, simulate=300, depth=8, seed=ctx.seed,
+            # random walks to 7 tokens over the full alphabet: one case per visited state
+            cases += vlib.tlc(ctx, "AspTokens", "SIM_AspTokens.cfg", workers=1, simulate=20000, depth=8, seed=ctx.seed,
                               timeout=1500).cases
         note = r.notes[0]
         alphabet = sorted(note["alphabet"])
